@@ -252,7 +252,52 @@ def run_alg(cfg, data, cap, with_cb=False):
             tl.tenalg.set_backend("core")
 
 
+WRAPPERS = {"parafac": "CP", "nn_parafac": "CP_NN", "nn_parafac_hals": "CP_NN_HALS", "constrained_parafac": "ConstrainedCP",
+            "nn_tucker": "Tucker_NN", "nn_tucker_hals": "Tucker_NN_HALS", "parafac2": "Parafac2", "rand_parafac": "RandomizedCP"}
+
+
+class _ViaWrapper:
+    """Stands in for tensorly.decomposition: routes the functional call through the class wrapper (fit_transform + errors_)."""
+
+    def __init__(self, D):
+        self.D = D
+
+    def __getattr__(self, fname):
+        import inspect
+        D = self.D
+        table = {"parafac": "CP", "non_negative_parafac": "CP_NN", "non_negative_parafac_hals": "CP_NN_HALS",
+                 "constrained_parafac": "ConstrainedCP", "non_negative_tucker": "Tucker_NN", "non_negative_tucker_hals": "Tucker_NN_HALS",
+                 "parafac2": "Parafac2", "randomised_parafac": "RandomizedCP"}
+        if fname not in table:
+            return getattr(D, fname)
+        cls = getattr(D, table[fname], None)
+        if cls is None:                       # not re-exported by the package
+            from tensorly.decomposition import _tucker
+            cls = getattr(_tucker, table[fname])
+
+        def call(data, rank, **kw):
+            kw.pop("return_errors", None)
+            accepted = set(inspect.signature(cls.__init__).parameters)
+            dropped = {k: v for k, v in kw.items() if k not in accepted}
+            for k, v in dropped.items():      # an option the wrapper does not offer: only proceed if it is at its default
+                if k in ("callback",) and v is None:
+                    continue
+                if v not in (None, False, 0):
+                    raise NotImplementedError("wrapper %s has no option %s" % (cls.__name__, k))
+            extra = {}
+            if "return_errors" in accepted:
+                extra["return_errors"] = True
+            if "verbose" in accepted:
+                extra["verbose"] = False
+            est = cls(rank, **{k: v for k, v in kw.items() if k in accepted}, **extra)
+            dec = est.fit_transform(data)
+            return dec, list(est.errors_)
+        return call
+
+
 def _run_alg(cfg, data, cap, with_cb, tl, D):
+    if cfg.get("wrapper"):
+        D = _ViaWrapper(D)
     alg = cfg["alg"]
     seed = cfg["seed"]
     rank = cfg["rank"]
@@ -276,6 +321,10 @@ def _run_alg(cfg, data, cap, with_cb, tl, D):
             out["extra"]["mask"] = mask
         if cfg.get("orthogonalise"):
             kw["orthogonalise"] = True
+        if cfg.get("l2_reg"):
+            kw["l2_reg"] = cfg["l2_reg"]
+        if cfg.get("cvg_criterion"):
+            kw["cvg_criterion"] = cfg["cvg_criterion"]
         if with_cb:
             def cb(cp, err):
                 c = cp[0] if cfg.get("sparsity") else cp
@@ -359,6 +408,8 @@ def _run_alg(cfg, data, cap, with_cb, tl, D):
                       algorithm=cfg.get("algorithm", "fista"))
             if cfg.get("sparsity_coefficients") is not None:
                 kw["sparsity_coefficients"] = list(cfg["sparsity_coefficients"])
+            if cfg.get("core_sparsity") is not None:
+                kw["core_sparsity_coefficient"] = cfg["core_sparsity"]
             dec, errs = D.non_negative_tucker_hals(data, rank, **kw)
         out["decomp"] = ("tucker", dec[0], list(dec[1]))
         out["errs"] = errs
@@ -647,6 +698,15 @@ def record_trace(cfg, K=K_QUICK):
         ev["errs"] = errs_q(cfg, data, errs) if errs is not None else []
         ev["n_errs"] = -1 if errs is None else len(errs)
         ev["malformed"] = False
+        if cfg["alg"] == "cmtf" and cfg.get("normalize"):
+            # normalisation happens once, at return: the normalised pair must represent what the raw run returns
+            try:
+                raw = run_alg(dict(cfg, normalize=False), copy.deepcopy(data), k)["decomp"]
+                a = rel(cp_dense(dec[1], dec[2]) - cp_dense(raw[1], raw[2]), cp_dense(raw[1], raw[2]))
+                b = rel(cp_dense(dec[3], dec[4]) - cp_dense(raw[3], raw[4]), cp_dense(raw[3], raw[4]))
+                ev["scale_dev"] = qe(max(a, b))
+            except Exception:
+                ev["scale_dev"] = QNAN
         try:
             ev["true"] = qe(true_error(cfg, data, dec, res.get("extra")))
         except Exception as ex:
@@ -893,6 +953,26 @@ def driver_configs(tier, seed, algs=None):
     # ---- randomised CP watched through the callback only (no stopping rule active)
     add("rand_parafac", shape=[4, 5, 3], rank=2, data="generic", init="random", tol="zero", callback=True, max_stagnation=0)
     add("rand_parafac", shape=[4, 5, 3], rank=2, data="lowrank", init="svd", tol="loose", callback=True, max_stagnation=0)
+
+    # ---- penalised variants: what is reported is still the relative reconstruction error of the iterate
+    for sp in ([0.1, None, 0.1], [0.5, 0.5, 0.5], [None, 0.2, None]):
+        add("nn_tucker_hals", shape=[4, 5, 3], rank=[2, 2, 2], data="nonneg", init=str(rng.choice(["svd", "random"])), tol="zero",
+            algorithm=str(rng.choice(["fista", "active_set"])), sparsity_coefficients=sp, caps=[0, 1, 2, 3, 5])
+        add("nn_parafac_hals", shape=[4, 5, 3], rank=2, data="nonneg", init=str(rng.choice(["svd", "random"])), tol="tiny", sparsity_coefficients=sp,
+            nn_modes="all", caps=[0, 1, 2, 3, 5])
+    add("nn_tucker_hals", shape=[4, 5, 3], rank=[2, 2, 2], data="nonneg", init="svd", tol="zero", algorithm="fista", core_sparsity=0.3, caps=[0, 1, 2, 3, 5])
+    add("parafac", shape=[4, 5, 3], rank=2, data="generic", init="svd", tol="zero", l2_reg=0.5, callback=True)
+    add("parafac", shape=[4, 5, 3], rank=2, data="generic", init="random", tol="loose", cvg_criterion="rec_error", normalize=True)
+
+    # ---- the class wrappers expose the same lists as `errors_`
+    for alg, kw in (("parafac", {"data": "generic", "normalize": True}), ("nn_parafac", {"data": "nonneg"}), ("nn_parafac_hals", {"data": "nonneg"}),
+                    ("constrained_parafac", {"data": "nonneg", "constraints": {"non_negative": True}}),
+                    ("nn_tucker", {"data": "nonneg", "rank": [2, 2, 2]}), ("nn_tucker_hals", {"data": "nonneg", "rank": [2, 2, 2], "algorithm": "fista"}),
+                    ("parafac2", {"rows": [4, 5, 4], "shape": [3, 0, 4], "data": "generic"}), ("rand_parafac", {"data": "generic"})):
+        base = dict(shape=[4, 5, 3], rank=2, init=str(rng.choice(["svd", "random"])), tol=str(rng.choice(["tiny", "loose"])), wrapper=True,
+                    caps=[0, 1, 2, 3, 5, 8])
+        base.update(kw)
+        add(alg, **base)
 
     # ---- random sweep over the whole option space of every algorithm (what the curated list above does not pin)
     nrand = 12 if thorough else 3
